@@ -43,13 +43,13 @@ RO = '__CPROVER_POINTER_OFFSET(%s)' % RES
 QUIET = '(vx_event == 0 && !vx_err_called && !vx_cut)'
 CONTRACT = [
     ('requires', 'vx_off <= vx_n && cur == vx_buf + vx_off && self->input_end_ == vx_buf + vx_n && *ec_p == 0 && self->more_'),
-    ('requires', 'self->string_state_ <= parse_string_state_escape_u8 && vx_state_agrees(self->string_state_) && vx_accumulators_agree(self)'),
+    ('requires', 'self->string_state_ <= parse_string_state_escape_u8 && vx_state_agrees(self->string_state_) && vx_mon_wf() && vx_accumulators_agree(self)'),
     ('requires', 'vx_event == 0 && !vx_err_called && !vx_cut && self->position_ <= SIZE_MAX / 2 && vx_n <= SIZE_MAX / 4 && vx_sbuf_len <= SIZE_MAX / 4 && vx_exp_len <= SIZE_MAX / 4'),
     ('requires', '(self->escape_tag_ == semantic_tag_noesc ==> !vx_saw_escape) && VX_CONSISTENT0()'),
     ('assigns', 'self->string_state_, self->position_, self->more_, self->cp_, self->cp2_, self->escape_tag_, *ec_p, vx_mon, vx_exp_len, vx_exp_w, vx_saw_escape, vx_unspec, vx_event, vx_ev_len, vx_ev_w, vx_err_called, vx_err_code, vx_cut, vx_sbuf_len, vx_act_w'),
     ('ensures', '[C05][C03] the returned position lies inside the chunk', '__CPROVER_same_object(%s, vx_buf) && vx_off <= %s && %s <= vx_n' % (RES, RO, RO)),
     ('ensures', '[C03][C02] suspension (buffer exhausted, or yield after a \\\\uXXXX escape): the saved state is the RFC 8259 string-DFA state of the characters consumed, with the \\\\u accumulators saved',
-     '%s ==> (vx_state_agrees(self->string_state_) && vx_accumulators_agree(self) && *ec_p == 0 && (%s == vx_n || vx_mon.st == STR_TEXT))' % (QUIET, RO)),
+     '%s ==> (vx_state_agrees(self->string_state_) && vx_mon_wf() && vx_accumulators_agree(self) && *ec_p == 0 && (%s == vx_n || vx_mon.st == STR_TEXT))' % (QUIET, RO)),
     ('ensures', '[C03][C01][C02] suspension: the scratch buffer holds exactly the decoded text of everything consumed so far (length and content at the watched position)',
      '%s ==> VX_CONSISTENT0()' % QUIET),
     ('ensures', '[C02][C01] a string value is delivered exactly when the closing quotation mark has been consumed, and it is the RFC 8259 decoding of the string: same length, same content (watched position), escapes and surrogate pairs decoded to their UTF-8',
